@@ -1124,8 +1124,12 @@ impl Sim {
                 };
                 if have != want2 {
                     let q = if on_book { "open_order" } else { "closed_order" };
+                    // for a fee-bearing bid this is also C09's life-time identity: fees paid,
+                    // refunded and returned must add up to the fee escrowed
+                    let fee_bid = k.0 == 'b' && book_pre.bids.get(&k.1).map(|b| b.fee.is_some()).unwrap_or(false);
+                    let props: Vec<&str> = if fee_bid { vec!["C01", "C09"] } else { vec!["C01"] };
                     self.flag(
-                        &["C01"],
+                        &props,
                         "I-step.order_account",
                         kind,
                         q,
